@@ -27,3 +27,26 @@ for (_c, _s, _cp, _n, _tier) in ((3, 2, 1, 2, 'quick'), (4, 3, 1, 2, 'thorough')
         trusted=['stub of the per-stream opus_decode_native producing a known distinct sample per (stream, side, index); stub sizes of the single-stream decoder'],
         bounds='%d output channels, %d streams (%d coupled), %d samples per channel, any valid mapping (255 included), lost-packet call' % (_c, _s, _cp, _n),
         what='routing theorem of the multistream decoder: every output channel carries the mapped stream and side bit for bit, silence for 255, nothing else written'))
+
+_NAMES = {2: 'foa', 3: 'soa', 4: 'toa', 5: 'fourthoa', 6: 'fifthoa'}
+for _o in range(2, 7):
+    _n = _o * _o + 2
+    GROUPS.append(dict(name='proj_init_%s' % _NAMES[_o], cls='F', tu='C10_projection.c', entry='h_proj_init', dfcc=False, canary='real', expect_canaries=2, unwind=_n * _n + 2, timeout=2400, mem_gb=30,
+        defines=['-DVERIF_OPO=%d' % _o], pregen=['tools/gen_projection.py'], tier='quick' if _o in (2, 3) else 'thorough',
+        functions=['opus_projection_ambisonics_encoder_get_size', 'opus_projection_ambisonics_encoder_init', 'mapping_matrix_init', 'mapping_matrix_get_size', 'get_streams_from_channels', 'get_order_plus_one_from_channels'],
+        trusted=['stub of opus_multistream_encoder_init / _get_size recording its arguments (the real ones are C11\'s)'],
+        bounds='ambisonics order %d (%d or %d channels), every other argument symbolic' % (_o - 1, _o * _o, _n),
+        what='projection encoder set-up: the stored mixing / demixing matrices are header and coefficients of this order\'s mixing / demixing tables, stream counts, identity mapping, state layout inside get_size()'))
+    GROUPS.append(dict(name='proj_inverse_%s' % _NAMES[_o], cls='F', tu='C10_projection.c', entry='h_proj_inverse', dfcc=False, canary='real', expect_canaries=1, unwind=_n + 2, timeout=1800, mem_gb=16,
+        defines=['-DVERIF_OPO=%d' % _o], pregen=['tools/gen_projection.py'], tier='quick' if _o in (2, 3) else 'thorough',
+        functions=[], assumptions=['tolerance 2^-10 chosen by /verif (coefficients are Q15; the property states no number); the linear gain 10^(gain/5120) is generated from the demixing table header on every run'],
+        bounds='order %d tables (%dx%d), every (row, column) pair symbolic' % (_o - 1, _n, _n),
+        what='finite table lemma: gain x demixing x mixing = identity within 2^-10 over the real tables of this order'))
+GROUPS.append(dict(name='proj_reject', cls='F', tu='C10_projection.c', entry='h_proj_reject', dfcc=False, canary='real', expect_canaries=1, unwind=40, timeout=900, pregen=['tools/gen_projection.py'],
+    functions=['opus_projection_ambisonics_encoder_get_size', 'opus_projection_ambisonics_encoder_init', 'get_order_plus_one_from_channels'], bounds='every int channel count outside the ten legal ones',
+    what='projection encoder set-up rejects every channel count that is not (n+1)^2 [+2], n = 1..5'))
+
+GROUPS.append(dict(cls='P', tu='C10_ms_init_p.c', canary='real', unwind=1, timeout=1200, name='ms_decoder_init_p', entry='h_ms_decoder_init_p', expect_canaries=3, tier='thorough', assumptions=['opus_multistream_decoder_get_size is called with streams, coupled <= 255 (documented range): it does not check that limit itself and its int arithmetic overflows far beyond it'],
+    functions=['opus_multistream_decoder_get_size', 'opus_multistream_decoder_init', 'validate_layout'],
+    trusted=['stub sizes/init of the single-stream decoder (C11); the init stub asserts that every state it is handed lies inside get_size() bytes'],
+    what='multistream decoder get_size/init for any stream and channel counts (loop contracts on the mapping copy and the two stream loops): illegal counts and layouts rejected, layout stored as given, one decoder per stream, coupled first, states back to back inside get_size()'))
